@@ -10,7 +10,7 @@ package runtime
 //@ spec wfVal(v any, t ast.DType) bool = (t == ast.String ==> typeis(v, string)) && (t == ast.List ==> typeis(v, []any))
 //@ | && (t == ast.Map ==> typeis(v, map[string]any) && v.(map[string]any) != nil) && (t == ast.Int ==> typeis(v, int64))
 //@ | && (t == ast.Float ==> typeis(v, float64)) && (t == ast.Bool ==> typeis(v, bool))
-//@ | && (t == ast.Nil ==> v == nil)
+//@ | && (t == ast.Nil ==> v == nil) && t <= ast.Map
 
 //@ spec isNum(t ast.DType) bool = t == ast.Int || t == ast.Float || t == ast.Bool
 
@@ -494,6 +494,25 @@ package runtime
 //@ like RunStmt
 //@ props C01 C04
 //@ intmode bv64
+//@ loop 1
+//@ invariant 0 <= i && length == len(str)
+//@ loop 2
+//@ invariant i <= length - 1 && length == len(str)
+//@ loop 3
+//@ invariant 0 <= i && endInt <= length && length == len(list)
+//@ loop 4
+//@ invariant i <= length - 1 && -1 <= endInt && length == len(list)
+
+//@ func sliceLen
+//@ props C01 C04
+//@ intmode bv64
+//@ pure
+//@ requires step > 0 ==> 0 <= start && end <= 8796093022208
+//@ requires step < 0 ==> -1 <= end && start <= 8796093022208
+//@ ensures result >= 0
+//@ ensures step > 0 && start < end ==> result <= end - start
+//@ ensures step < 0 && start > end ==> result <= start - end
+//@ ensures !(step > 0 && start < end) && !(step < 0 && start > end) ==> result == 0
 
 //@ func forbreak
 //@ props C01 C03
